@@ -66,6 +66,8 @@ type pgenWeights struct {
 	enums    int // percent of named basic source types that are enums (have constants)
 	maps     int // percent of positions (depth < 2) forced to be a map with a named key type
 	wrapUsing int // percent of decorated converters with wrapErrorsUsing (default 30)
+	noExtend int // percent of decorated methods that get no extend function at all
+	underlying int // percent of decorated converters using useUnderlyingTypeMethods with functions on underlying types
 }
 
 func (g *pgen) edit(s string) { g.edits = append(g.edits, s) }
@@ -411,6 +413,17 @@ func (g *pgen) converter(idx int) *ConvSpec {
 			id := g.newNamed(g.pkg(), tBasic(genBasics[g.r.Intn(len(genBasics))]), "NB")
 			g.makeEnum(id)
 			src = tNamed(id)
+		}
+		if (g.weights.smeth > 50 || g.weights.defaults > 50) && g.r.Intn(100) < 40 { // a named struct at the root (struct-method sources, default FUNC, map ... | FUNC apply there)
+			var fs []Field
+			for i, n := range []string{"A", "B", "Items"}[:1+g.r.Intn(3)] {
+				_ = i
+				fs = append(fs, Field{n, g.srcType(2)})
+			}
+			src = tNamed(g.newNamed(1, &Ty{K: "struct", Fields: fs, Pkg: 1}, "S"))
+			if g.r.Intn(4) == 0 {
+				src = tPtr(src)
+			}
 		}
 		tgt := g.derive(src, 0, "")
 		m := &MethodSpec{Name: fmt.Sprintf("M%d", i), Src: src, Tgt: tgt, Fields: map[string]*fieldSet{}}
